@@ -221,7 +221,9 @@ class OpenmlSource(Source[Iterable[Tuple[Union[MutableSequence, MutableMapping],
         old_data_id = self._data_id
         all_cached  = False
 
-        if self._task_id and self._cache_keys['task'] in CobaContext.cacher:
+        if self._task_id:
+            if self._cache_keys['task'] not in CobaContext.cacher: return False
+
             task_descr = self._get_task_descr(self._task_id)
 
             if not task_descr['data']: return True #this will fall into an exception so no more caching is needed
